@@ -246,6 +246,8 @@ func (w *worker) runSession() {
 		w.modePairs()
 	case "hist":
 		w.modeHist()
+	case "family":
+		w.modeFamily()
 	case "rand":
 		for i := 0; i < s.Runs && !w.stop; i++ {
 			seed := simrt.Mix(s.Seed, uint64(s.Worker), uint64(i))
@@ -591,6 +593,51 @@ func (w *worker) modeHist() {
 			est += w.c.Steps[api][r] + w.c.Steps[api][p]
 		}
 		spec := &simrt.RunSpec{Seed: uint64(a), Tasks: [][]simrt.Call{calls}, Policy: simrt.Policy{Kind: "seq", PoolMode: "lifo"}, Est: est + 64}
+		w.execRun(spec, nil, false)
+	}
+}
+
+// Families lists, per token family, the corpus indices of its members.
+func Families(c *common.Corpus) [][]int32 {
+	by := map[int32][]int32{}
+	var ids []int32
+	for i := range c.In {
+		if g := c.GroupOf(i); g > 0 {
+			if _, ok := by[g]; !ok {
+				ids = append(ids, g)
+			}
+			by[g] = append(by[g], int32(i))
+		}
+	}
+	out := make([][]int32, 0, len(ids))
+	for _, g := range ids {
+		out = append(out, by[g])
+	}
+	return out
+}
+
+// modeFamily: token-family sweep. For each family (one word placed in every
+// SQLi and XSS syntactic position) a single task asks API1 on all members,
+// then API2 on all members, then API1 again: state keyed by a shared token
+// that leaks from one detector (or one position) to the other shows as a
+// mismatch against the fresh reference. Seed parity selects which API goes first.
+func (w *worker) modeFamily() {
+	fams := Families(w.c)
+	for k := w.ses.From; k < w.ses.To && k < len(fams) && !w.stop; k++ {
+		first := uint8((w.ses.Seed + uint64(w.ses.Worker)) & 1)
+		var calls []simrt.Call
+		var est int64
+		for pass := 0; pass < 3; pass++ {
+			api := first
+			if pass == 1 {
+				api = 1 - first
+			}
+			for _, m := range fams[k] {
+				calls = append(calls, simrt.Call{API: api, Idx: m, Input: w.c.In[m]})
+				est += w.c.Steps[api][m] + 1
+			}
+		}
+		spec := &simrt.RunSpec{Seed: uint64(k), Tasks: [][]simrt.Call{calls}, Policy: simrt.Policy{Kind: "seq", PoolMode: "lifo"}, Est: est + 64}
 		w.execRun(spec, nil, false)
 	}
 }
